@@ -4,10 +4,12 @@ property text and a scratch worktree — nothing from /verif."""
 import json, sys
 pid = sys.argv[1]
 n = sys.argv[2] if len(sys.argv) > 2 else "2"
+wave = sys.argv[3] if len(sys.argv) > 3 else ""
+W = f"-w{wave}" if wave else ""
 p = {json.loads(l)['id']: json.loads(l) for l in open('/verif/properties.jsonl')}[pid]
 mech = "; ".join(f"{m.get('name')} ({m.get('where')})" for m in p['anchors'].get('mechanism', []) if isinstance(m, dict)) \
     if isinstance(p['anchors'].get('mechanism'), list) else str(p['anchors'].get('mechanism', ''))
-print(f"""You are testing the test-adequacy of a Rust project: magicant/yash-rs (a POSIX shell written in Rust). You have your own scratch git worktree of the repository at /tmp/seed-{pid} (create nothing outside /tmp/seed-{pid} and /tmp/seed-{pid}-out; do NOT look at or touch /verif or /repo; do not use the network — the sandbox is offline, pass --offline to cargo).
+print(f"""You are testing the test-adequacy of a Rust project: magicant/yash-rs (a POSIX shell written in Rust). You have your own scratch git worktree of the repository at /tmp/seed-{pid}{W} (create nothing outside /tmp/seed-{pid}{W} and /tmp/seed-{pid}{W}-out; do NOT look at or touch /verif or /repo; do not use the network — the sandbox is offline, pass --offline to cargo).
 
 Here is a semantic property the shell is supposed to satisfy:
 
@@ -22,6 +24,6 @@ Your task: produce {n} DIFFERENT, realistic changes to the repository's source c
   2. still compiles, and still passes the repository's existing test suite: run `cargo nextest run --workspace --no-fail-fast --offline` (or `cargo test --workspace --no-fail-fast --offline` if nextest is unavailable) in the worktree BEFORE changing anything to learn which tests fail anyway in this sandbox (the `yash-cli` `scripted_test::*` integration tests are known to fail here for environmental reasons — ignore them), then after your change: the set of failing tests must be unchanged,
   3. needs something SPECIFIC to manifest — a particular interleaving, a fault at a particular point, a multi-step sequence of operations, an unusual input, or two cooperating sites that each look fine alone — NOT something ordinary use would expose at once,
   4. comes with a DEMONSTRATION: a small Rust test (e.g. a file to drop into the relevant crate's tests/ directory, or a `#[test]` in a new file) or a small shell script run through the built `yash3` binary (target/debug/yash3) that FAILS with the change and PASSES without it. Verify both directions yourself.
-Do not edit existing tests. Keep each change small (a few lines). Make the changes independent of each other (each applies alone to the unmodified tree).
+{"Diversity: this is a second round - other changes to this code have been tried before; do NOT pick the most obvious site. Choose less central mechanisms and files among the relevant code (secondary built-ins, error paths, rarely combined options, boundary values, interactions between two features), and make the two changes as different from each other as possible. " if wave else ""}Do not edit existing tests. Keep each change small (a few lines). Make the changes independent of each other (each applies alone to the unmodified tree).
 
-Deliver, for k = 1..{n}: /tmp/seed-{pid}-out/k/patch.diff (output of `git diff` for that change alone, applying with `git apply` to the unmodified tree), /tmp/seed-{pid}-out/k/demo (the demonstration file(s), plus how to run it in a file RUN.md), /tmp/seed-{pid}-out/k/meta.json with keys: property ("{pid}"), summary (what the change does), needs (what specific circumstances make it manifest), ran (the exact commands you ran and their outcome: tests before/after, demo before/after). When done, restore the worktree to the unmodified state (`git checkout -- .`, remove untracked files you added, and run `cargo clean` in it to free disk space) and reply with a short summary of the {n} changes.""")
+Deliver, for k = 1..{n}: /tmp/seed-{pid}{W}-out/k/patch.diff (output of `git diff` for that change alone, applying with `git apply` to the unmodified tree), /tmp/seed-{pid}{W}-out/k/demo (the demonstration file(s), plus how to run it in a file RUN.md), /tmp/seed-{pid}{W}-out/k/meta.json with keys: property ("{pid}"), summary (what the change does), needs (what specific circumstances make it manifest), ran (the exact commands you ran and their outcome: tests before/after, demo before/after). When done, restore the worktree to the unmodified state (`git checkout -- .`, remove untracked files you added, and run `cargo clean` in it to free disk space) and reply with a short summary of the {n} changes.""")
